@@ -285,6 +285,19 @@ def case_strategy(draw, max_ops=15):
             d = draw(st.sampled_from(EC_DEFS))
             op["id"], op["value"] = d["id"], _ec_value(draw, d)
         ops.append(op)
+    if draw(st.sampled_from([False] * 7 + [True])):
+        # template: the same status variable is polled, changed to a value that COMPARES EQUAL to the old one but is another
+        # value on the wire (0.0 <-> -0.0, the only such pair the typed variables have), and polled again
+        fl = [d for d in svs if d["type"] in ("F4", "F8")]
+        if fl:
+            d = draw(st.sampled_from(fl))
+            poll = lambda: {"op": draw(st.sampled_from(["s1f3", "s1f3", "s1f3"])), "ids": [["A", d["id"]] if isinstance(d["id"], str) else _idspec(draw, [d["id"]])]}  # noqa: E731
+            z = draw(st.sampled_from([0.0, -0.0]))
+            tpl = [{"op": "sv_update", "id": d["id"], "value": F(z)}, poll(), {"op": "sv_update", "id": d["id"], "value": F(-z)}, poll()]
+            if draw(st.booleans()):
+                tpl += [{"op": "sv_update", "id": d["id"], "value": F(z)}, poll()]
+            at = draw(st.integers(0, len(ops)))
+            ops[at:at] = tpl
     sched = draw(
         st.one_of(
             st.just({"seed": 0}),
